@@ -60,7 +60,7 @@ for pid in sorted(P):
         "evidence_file": f"evidence/{pid}.json",
         "replay_cmd_template": f"./check {pid} --replay {{path}}",
         "engine": "ipt-monitor",
-        "level_claimed": {"category": "exploration", "text": text + ". Held only on the executions observed; counts, smallest margins and samples are in the evidence file.", "design_ref": ref},
+        "level_claimed": {"category": "exploration", "text": text + "; plus the shared history-, fault-, concurrency-, cold-start- and configuration-diversity probes and boundary seeking of DESIGN §3.8. Held only on the executions observed; counts, smallest margins and samples are in the evidence file.", "design_ref": ref},
         "level_note": NOTE.get(pid, "trusted base: the independent oracles in harness/src/oracle.rs, chrono's day counts, std float parsing; inputs are generated (seeded) or enumerated as stated in the evidence rule"),
         "technique": tech,
     })
